@@ -37,6 +37,22 @@ class SimDatetime(_dt.datetime):
         return now()
 
 
+class _Names:
+    """deterministic replacement for tempfile's random name sequence (names restart with every run)"""
+
+    def __init__(self):
+        self.n = 0
+
+    def __iter__(self):
+        return self
+
+    def __next__(self):
+        self.n += 1
+        return "sim%05d" % self.n
+
+
 def install():
+    import tempfile
     import mrcfile.mrcobject as mo
     mo.datetime = SimDatetime
+    tempfile._name_sequence = _Names()
